@@ -379,6 +379,32 @@ func c03OtherPaths(c *vfeng.Ctx, w *vfWorld) {
 			}
 		}
 	}
+	// refresh with certificates NOT issued by this keymaster: the operator's client CA
+	// may hand out IP-restricted certificates of any lifetime; what the refresh
+	// endpoint signs is an automation certificate all the same
+	_, nb, _ := net.ParseCIDR("10.9.0.0/16")
+	for _, life := range []time.Duration{time.Hour, 45 * 24 * time.Hour, 46 * 24 * time.Hour, 365 * 24 * time.Hour, 20 * 365 * 24 * time.Hour} {
+		for _, rage := range []time.Duration{0, 24 * time.Hour} {
+			for _, dur := range [][]string{nil, {"1h"}, {"1000h"}, {"100000h"}} {
+				vclock.Reset()
+				der, err := certgen.GenIPRestrictedX509Cert(c03AutoUser, vfKeys.userEC.Public(), vfKeys.adminCACert, vfKeys.adminCA, []net.IPNet{*nb}, life, nil, nil)
+				vfMust(err)
+				leaf, _ := x509.ParseCertificate(der)
+				vclock.Advance(rage)
+				if !vclock.Now().Before(leaf.NotAfter) {
+					continue
+				}
+				now := vclock.Now()
+				rform := url.Values{"pubkey": {b64}}
+				for _, d := range dur {
+					rform.Add("duration", d)
+				}
+				r2 := w.Do(vfReq{Method: "POST", Path: refreshRoleRequestingCertPath, Form: rform, TLS: w.vfTLSFor(leaf), Remote: "10.9.1.1:999"}.Build())
+				c.Eval(1)
+				c03JudgeAutomation(c, fmt.Sprintf("role-refresh-of-operator-ca-cert-%dd", int(life.Hours()/24)), r2, now, dur, rage)
+			}
+		}
+	}
 	_ = st
 }
 
